@@ -35,6 +35,9 @@ Bad(r) ==
   IN perReporter("basic") \cup perReporter("libtest") \cup perReporter("json") \cup junitBad
      \cup (IF lt.unpaired = 0 THEN {} ELSE {<<"libtest", "started-line-without-one-result-of-the-same-name">>})
      \cup (IF lt.dup_started = 0 THEN {} ELSE {<<"libtest", "two-started-lines-with-the-same-name">>})
+     \* "under its feature": one feature prefix per feature, different features under different prefixes
+     \* (a path-less feature is told apart by the ordinal the writer gives it)
+     \cup (IF lt.feature_clash = 0 THEN {} ELSE {<<"libtest", "scenarios-of-different-features-listed-under-one-feature">>})
      \cup (IF lt.suite_started = 1 /\ lt.suite_result = 1 THEN {} ELSE {<<"libtest", "suite-lines">>})
      \cup (IF lt.suite_result # 1 \/ (lt.suite.passed = lt.n_ok /\ lt.suite.ignored = lt.n_ignored) THEN {}
            ELSE {<<"libtest", "passed-or-ignored-total-differs-from-entries">>})
